@@ -32,6 +32,26 @@ def check_case(case):
     else:  # mux without a live input, next to a live shared source
         spec = mux_spec([tuple(x) for x in case["inputs"]], case["pal"], case["rs_list"], below="deep", mux_pc=case.get("mux_pc"))
     s, obs = phys.solve_and_check(res, spec, WANT)
+    if obs is not None and fam == "phase" and case.get("rails", True):
+        # the same system with a rail on every non-load component: a dead rail must be reported at 0 V in exactly the phases in which it is dead
+        import copy
+        from ..sysmodel import LOADS, build, g
+        from ..common import quiet_call
+        sp2 = copy.deepcopy(spec)
+        for c in sp2["comps"]:
+            if c["k"] not in LOADS:
+                c["r"] = "r_" + c["n"]
+        try:
+            rr, _ = quiet_call(build(sp2).rail_rep)
+            for r in rr.to_dict("records"):
+                ph, own = r.get("Phase", ""), r["Rail"][2:]
+                ev = g(obs[(ph, own)], "Vout (V)")
+                if g(r, "Voltage (V)") != ev:
+                    res.v(("C04.rail-voltage", "dead" if ev == 0 else "live"), "phase %r rail of %s reported at %r V, its owner outputs %r V" % (ph, own, g(r, "Voltage (V)"), ev))
+                if ev == 0 and any(g(r, c) != 0 for c in ("Current (A)", "Power (W)", "Loss (W)")):
+                    res.v(("C04.dead-rail-carries",), "phase %r rail of %s: %r" % (ph, own, r))
+        except Exception as e:
+            res.v(("C04.rail_rep-raises", type(e).__name__), str(e))
     if obs is not None and res.stats["dead_rows"] >= 2 and (res.stats["live_rows"] + res.stats["sleep_rows"]) >= 1:
         res.nontrivial = 1
     res.classes.add("%s:dead=%s,sleep=%s" % (fam, min(res.stats["dead_rows"], 3), min(res.stats["sleep_rows"], 2)))
